@@ -42,8 +42,11 @@ def pool(tier):
     fr = [(1, 2), (-1, 2), (1, 3), (-1, 3), (3, 2), (-3, 2), (7, 3), (-7, 3), (5, 4), (1, 7), (22, 7), (-22, 7),
           (2 ** 64 + 1, 2 ** 64), (1, 2 ** 70), (-(10 ** 30 + 1), 10 ** 15 + 3), (2 ** 100 + 1, 3),
           (2 ** 1100 + 1, 2 ** 1100), (1, 2 ** 1080)]
+    # parts beyond 2^53 for which float(n) / float(d) is NOT the correctly rounded quotient (conversion must not round twice)
+    twice = [(9007199254740993, 7), (7, 9007199254740993), (-9007199254740995, 3), (9007199254740997, 9007199254740999), (10000000000000001, 9007199254740995)]
+    fr += twice
     if tier == "tiny":
-        fr = [(1, 2), (-1, 2), (1, 3), (-7, 3), (3, 2), (2 ** 64 + 1, 2 ** 64), (-(10 ** 30 + 1), 10 ** 15 + 3)]
+        fr = [(1, 2), (-1, 2), (1, 3), (-7, 3), (3, 2), (2 ** 64 + 1, 2 ** 64), (-(10 ** 30 + 1), 10 ** 15 + 3)] + twice[:3]
     for n, d in fr:
         add(cQ(Fraction(n, d)), lit_frac(Fraction(n, d)))
     # integral-valued rationals keep the rational level
